@@ -185,6 +185,8 @@ pub fn stress_shapes(ctx: &mut Ctx, reps: u64) {
         ctx.count("stale-instant-histories");
         run_plain(ctx, &gen_answered_between_polls(&mut rng));
         ctx.count("answered-between-polls-histories");
+        run_plain(ctx, &gen_bystander_calls(&mut rng));
+        ctx.count("bystander-call-histories");
         // (13) stray, duplicated and late responses, then their ids are used by new requests
         {
             let t = rng.below(NTID as u64) as u8;
@@ -204,7 +206,7 @@ pub fn stress_shapes(ctx: &mut Ctx, reps: u64) {
             run_plain(ctx, &History { tcp: rng.chance(1, 3), remote0: None, remote_addr: None, ops });
             ctx.count("stray-then-reused-id-histories");
         }
-        ctx.count_n("stress-histories", 10);
+        ctx.count_n("stress-histories", 11);
     }
     for _ in 0..(reps / 16).max(2) {
         let h = gen_many_peers(&mut rng);
@@ -290,6 +292,57 @@ pub fn gen_answered_between_polls(rng: &mut crate::prng::Rng) -> History {
         ops.push(Op::Poll(PollAt::AtWait));
     }
     History { tcp: false, remote0: None, remote_addr: None, ops }
+}
+
+/// a call that has nothing to do with timing (credentials set / changed, messages from peers, stray and
+/// forged responses, datagrams and non-requests sent, other transactions started, finished or looked at)
+pub fn gen_bystander(rng: &mut crate::prng::Rng, busy: u8) -> Op {
+    let from = rng.below(NCORE as u64) as u8;
+    match rng.below(14) {
+        0 => Op::SetLocal(rng.below(4) as u8),
+        1 => Op::SetRemote(rng.below(3) as u8),
+        2 => Op::Incoming { request: rng.chance(1, 2), tid: 6, from },
+        3 => Op::IncomingSigned { request: rng.chance(1, 2), tid: 7, from, cred: rng.below(4) as u8, good: rng.chance(1, 2) },
+        4 => Op::Response { tid: 6, from, error: rng.chance(1, 2), seal: RespSeal::Unsigned, fp: rng.chance(1, 2) }, // stray
+        5 => Op::Response { tid: busy, from, error: rng.chance(1, 2), seal: *rng.pick(&[RespSeal::Unsigned, RespSeal::Sha1(2), RespSeal::CorruptSha1(0), RespSeal::CorruptSha256(0), RespSeal::OddLen(0, 3)]), fp: false }, // forged (for a signed request)
+        6 => Op::SendData { dest: from, len: rng.below(1200) as u16 },
+        7 => Op::Send { kind: *rng.pick(&[MsgKind::Indication, MsgKind::Success, MsgKind::Error]), tid: *rng.pick(&[busy, 5]), dest: from, seal: *rng.pick(&[Sealing::None, Sealing::Sha1]), payload: rng.below(300) as u16 },
+        8 => Op::Send { kind: MsgKind::Request, tid: busy, dest: from, seal: Sealing::None, payload: 77 }, // refused: already in progress
+        9 => Op::Send { kind: MsgKind::Request, tid: 5, dest: from, seal: *rng.pick(&[Sealing::None, Sealing::Sha256]), payload: 78 },
+        10 => Op::Response { tid: 5, from, error: false, seal: *rng.pick(&[RespSeal::Unsigned, RespSeal::Sha256(0, 32)]), fp: false },
+        11 => Op::Cancel(5),
+        12 => Op::Via { holder: busy, inner: Box::new(Op::Incoming { request: true, tid: 6, from }) },
+        _ => Op::SetLocal(rng.below(4) as u8),
+    }
+}
+
+/// (14) bystander calls at every point of a schedule: an authenticated (or not) request follows its
+///      schedule exactly while calls that have nothing to do with timing are made between its
+///      transmissions: local / remote credentials set and changed, messages from peers, stray and
+///      forged responses, datagrams and non-requests sent, another transaction started and finished
+pub fn gen_bystander_calls(rng: &mut crate::prng::Rng) -> History {
+    let seal = *rng.pick(&[Sealing::None, Sealing::Sha1, Sealing::Sha256, Sealing::Both]);
+    let mut ops = vec![];
+    if rng.chance(1, 2) {
+        ops.push(Op::SetLocal(rng.below(4) as u8));
+    }
+    ops.push(req(1, rng.below(NCORE as u64) as u8, seal, 40));
+    if rng.chance(1, 2) {
+        ops.push(gen_configure(rng, 1));
+    }
+    let first = rng.usize(8);
+    for step in 0..12usize {
+        if step >= first {
+            for _ in 0..1 + rng.usize(2) {
+                ops.push(gen_bystander(rng, 1));
+            }
+        }
+        ops.push(Op::Poll(*rng.pick(&[PollAt::AtWait, PollAt::AtWait, PollAt::AtWait, PollAt::Half, PollAt::Before(1)])));
+    }
+    for _ in 0..10 {
+        ops.push(Op::Poll(PollAt::AtWait));
+    }
+    History { tcp: rng.chance(1, 5), remote0: if rng.chance(1, 2) { Some(0) } else { None }, remote_addr: None, ops }
 }
 
 /// (11) stale instants: a call is handed an instant earlier than one handed to an earlier call (for
@@ -420,7 +473,9 @@ pub fn schedule_sweep(ctx: &mut Ctx, n: u64) {
         let tcp = rng.chance(1, 4);
         let mut ops = vec![];
         for t in 0..ntx {
-            ops.push(req(t as u8, t as u8, Sealing::None, t as u16));
+            // one schedule in four belongs to an authenticated request
+            let seal = if rng.chance(1, 4) { *rng.pick(&[Sealing::Sha1, Sealing::Sha256, Sealing::Both]) } else { Sealing::None };
+            ops.push(req(t as u8, t as u8, seal, t as u16));
             if rng.chance(3, 4) {
                 ops.push(gen_configure(&mut rng, t as u8));
             }
@@ -429,6 +484,7 @@ pub fn schedule_sweep(ctx: &mut Ctx, n: u64) {
             }
         }
         let style = rng.below(5);
+        let bystanders = rng.chance(1, 3);
         let steps = 6 + rng.usize(30);
         for s in 0..steps {
             ops.push(match style {
@@ -451,8 +507,14 @@ pub fn schedule_sweep(ctx: &mut Ctx, n: u64) {
                 let t = rng.below(ntx as u64) as u8;
                 ops.push(if rng.chance(1, 2) { gen_configure(&mut rng, t) } else { Op::CancelRetrans(t) });
             }
+            // calls that have nothing to do with timing, between the transmissions
+            if bystanders && rng.chance(1, 6) {
+                let busy = rng.below(ntx as u64) as u8;
+                ops.push(gen_bystander(&mut rng, busy));
+                ctx.count("bystander-calls-in-schedules");
+            }
         }
-        let h = History { tcp, remote0: None, remote_addr: None, ops };
+        let h = History { tcp, remote0: if rng.chance(1, 3) { Some(0) } else { None }, remote_addr: None, ops };
         run_plain(ctx, &h);
         ctx.count("schedule-histories");
         if i < 1 {
@@ -527,6 +589,8 @@ pub fn run_c06(ctx: &mut Ctx) {
     ctx.require("cancel-retransmissions-calls", 1_000);
     ctx.require("configuration-grid", 500);
     ctx.require("default-schedules-checked", 2);
+    ctx.require("bystander-calls-in-schedules", 10_000);
+    ctx.require("bystander-call-histories", 300);
 }
 
 pub fn run_c07(ctx: &mut Ctx) {
@@ -709,8 +773,49 @@ pub fn run_c15(ctx: &mut Ctx) {
     ctx.require("response-dropped-unknown-tid", 1_000);
 }
 
+/// (15) every special destination (wildcards, port 0, multicast, broadcast, IPv4-mapped, zoned and
+///      flow-labelled link-local ...): a request, an indication and a response sent there; the request
+///      followed through part of its schedule, answered from exactly that address or not at all
+pub fn special_destinations(ctx: &mut Ctx) {
+    let mut rng = ctx.rng("special-destinations", 0);
+    let mut gi = 0u64;
+    for dest in 8u8..32 {
+        for tcp in [false, true] {
+            for variant in 0..4u8 {
+                gi += 1;
+                if !ctx.mine(gi) {
+                    continue;
+                }
+                let seal = if variant % 2 == 0 { Sealing::None } else { Sealing::Sha1 };
+                let mut ops = vec![req(2, dest, seal, 60 + dest as u16)];
+                if variant >= 2 {
+                    ops.push(Op::Configure { tid: 2, rto: 50 + rng.below(300), n: 3, last: 400, rto_us: 0, last_us: 0 });
+                }
+                ops.push(Op::Send { kind: MsgKind::Indication, tid: 3, dest, seal: Sealing::None, payload: 61 });
+                ops.push(Op::Send { kind: if variant % 2 == 0 { MsgKind::Success } else { MsgKind::Error }, tid: 4, dest, seal: Sealing::None, payload: 62 });
+                for _ in 0..3 {
+                    ops.push(Op::Poll(PollAt::AtWait));
+                }
+                // another request to a neighbouring special address: two destinations, two transactions
+                ops.push(req(5, 8 + (dest - 8 + 1) % 24, Sealing::None, 63));
+                ops.push(Op::Poll(PollAt::AtWait));
+                if variant == 1 || variant == 2 {
+                    ops.push(Op::Response { tid: 2, from: dest, error: false, seal: if seal == Sealing::None { RespSeal::Unsigned } else { RespSeal::Sha1(0) }, fp: true });
+                }
+                for _ in 0..8 {
+                    ops.push(Op::Poll(PollAt::AtWait));
+                }
+                run_plain(ctx, &History { tcp, remote0: Some(0), remote_addr: None, ops });
+                ctx.count("special-destination-histories");
+            }
+        }
+    }
+}
+
 pub fn run_c18(ctx: &mut Ctx) {
     let quick = ctx.tier == Tier::Quick;
+    special_destinations(ctx);
+    ctx.require("special-destination-histories", 150);
     small_scope(ctx, if quick { 3 } else { 4 }, &small_alphabet());
     let n = ctx.n(20_000, 200_000);
     random_histories(ctx, n, "general", 100, if quick { 600 } else { 1500 }, 8);
